@@ -4,7 +4,7 @@
 import { Reporter, TIER, SEED, sha } from "./common.mjs";
 import { CompilePool, classify, DEFAULT_SETTINGS } from "./compile.mjs";
 import { loadProgram } from "./runtime.mjs";
-import { renderProgram, Alias, Iface, Ref, ObjT, Prop, P, L, U, I, ArrT, Tup, Rec } from "./spec.mjs";
+import { renderProgram, Alias, Iface, Ref, ObjT, Prop, P, L, U, I, ArrT, Tup, Rec, MapT } from "./spec.mjs";
 import { SETTINGS } from "./c02.mjs";
 import { PyOracle } from "./pyoracle.mjs";
 
@@ -22,6 +22,15 @@ function program() {
     Alias("DUanon3", U(ObjT([Prop("kind", L("a")), Prop("x", P("number"))]), ObjT([Prop("kind", L("b")), Prop("y", P("string"))]))),
     Alias("DUrec", U(ObjT([Prop("kind", L("leaf")), Prop("v", Ref("Plain"))]), ObjT([Prop("kind", L("node")), Prop("kids", ArrT(Ref("DUrec")))]))),
     Alias("Override", ObjT([Prop("overridden", L(true))])),
+    // names that are special for String.prototype.replace / for lookups on plain objects
+    Alias("Dol$$ar", ObjT([Prop("d", P("number"))])),
+    Alias("valueOf", ObjT([Prop("v", L(1))])),
+    Alias("constructor", ObjT([Prop("c", L(2)), Prop("again", U(Ref("constructor"), P("null")))])),
+    // discriminator values that differ only in characters a component name cannot carry, or only in type
+    Alias("DUsan", U(ObjT([Prop("kind", L("a-b")), Prop("x", P("number"))]), ObjT([Prop("kind", L("a_b")), Prop("y", P("string"))]), ObjT([Prop("kind", L("a b")), Prop("z", P("boolean"))]))),
+    Alias("DUcase", U(ObjT([Prop("kind", L("ab")), Prop("x", P("number"))]), ObjT([Prop("kind", L("Ab")), Prop("y", P("string"))]))),
+    // a named type that cannot be printed (Map) next to printable ones: the throw must not poison the context
+    Alias("HasMap", ObjT([Prop("m", MapT(P("string"), P("number"))), Prop("plain", Ref("Plain"))])),
   ];
   const parsers = [
     ["P1", Ref("Plain")],
@@ -40,10 +49,17 @@ function program() {
     // references that carry their own JSDoc description (metadata of the reference site, not of the type)
     ["P14", ObjT([{ name: "owner", t: Ref("Plain"), opt: false, doc: "The paying customer" }, { name: "root", t: Ref("RecT"), opt: true, doc: "where it starts" }])],
     ["P15", ObjT([Prop("reporter", Ref("Plain")), { name: "du", t: Ref("DUnamed"), opt: true, doc: "a described union" }])],
+    ["P16", ObjT([Prop("d", Ref("Dol$$ar")), Prop("v", Ref("valueOf"), true)])],
+    ["P17", Ref("constructor")],
+    ["P18", Ref("DUsan")],
+    ["P19", ObjT([Prop("a", Ref("DUcase")), Prop("p", Ref("Plain"))])],
+    ["P20", ObjT([Prop("plain", Ref("Plain")), Prop("h", Ref("HasMap"))])],
     ["POverride", Ref("Override")],
   ];
   return { decls, parsers };
 }
+
+const INEXPRESSIBLE = new Set(["P20"]);
 
 function subsets(items, sizes) {
   const out = [];
@@ -121,8 +137,17 @@ export async function run() {
         const freshDefBy = new Map(); // name -> first parser whose fresh context defined it
         for (const n of names) {
           const ctx = mk();
-          const s = parsers[n].schemaWithContext(ctx);
-          single[n] = { schema: canon(s), defs: Object.fromEntries(Object.entries(defsOf(ctx)).map(([k, v]) => [k, canon(v)])) };
+          let s;
+          let threw = null;
+          try {
+            s = parsers[n].schemaWithContext(ctx);
+          } catch (e) {
+            threw = e;
+          }
+          // a type with a Map member cannot be printed: the call has to throw (C02), and must leave the context usable
+          if (!!threw !== INEXPRESSIBLE.has(n)) rep.violation(`C16 schemaWithContext ${threw ? "threw" : "did not throw"} in a fresh context`, `${n}: ${threw ? threw.message : "printed a type with a Map member"} [${setting.name}]`, { engine: "E-src", program: text, history: [n], setting: setting.name, overrides: ov ? Object.keys(ov) : [] });
+          single[n] = { schema: threw ? null : canon(s), threw: !!threw, defs: threw ? {} : Object.fromEntries(Object.entries(defsOf(ctx)).map(([k, v]) => [k, canon(v)])) };
+          if (threw) continue;
           for (const [k, v] of Object.entries(single[n].defs)) {
             if (freshDef.has(k) && freshDef.get(k) !== v) rep.violation(`C16 two fresh contexts define the same name differently`, `definition of ${k} differs between fresh contexts (reached from ${n} and from ${freshDefBy.get(k)}) [${setting.name}${ov ? "+override" : ""}]`, { engine: "E-src", program: text, name: k, history: [freshDefBy.get(k), n], setting: setting.name, overrides: ov ? Object.keys(ov) : [] });
             if (!freshDef.has(k)) freshDefBy.set(k, n);
@@ -150,18 +175,30 @@ export async function run() {
               const h2 = [...hist, n];
               const ctx = mk();
               let schema;
-              try {
-                for (const m of h2) schema = parsers[m].schemaWithContext(ctx);
-              } catch (e) {
-                rep.violation(`C16 schemaWithContext threw : ${String(e.message).slice(0, 60)}`, `history ${h2.join(" ; ")} [${cfgName}] threw ${e.message}`, { engine: "E-src", program: text, history: h2, setting: setting.name });
+              let unexpected = null;
+              for (const m of h2) {
+                schema = undefined;
+                try {
+                  schema = parsers[m].schemaWithContext(ctx);
+                } catch (e) {
+                  if (!single[m].threw) {
+                    unexpected = e;
+                    break;
+                  }
+                }
+              }
+              if (unexpected) {
+                rep.violation(`C16 schemaWithContext threw : ${String(unexpected.message).slice(0, 60)}`, `history ${h2.join(" ; ")} [${cfgName}] threw ${unexpected.message}`, { engine: "E-src", program: text, history: h2, setting: setting.name, overrides: ov ? Object.keys(ov) : [] });
                 continue;
               }
+              if (schema === undefined && !single[n].threw) schema = null;
               stats.transitions++;
               const defs = defsOf(ctx);
               const inProg = Object.keys(ctx.inProgressDefinitions ?? {});
               const detail = { engine: "E-src", program: text, history: h2, setting: setting.name, overrides: ov ? Object.keys(ov) : [] };
               if (inProg.length) rep.violation(`C16 a definition is still marked in progress after a top-level call`, `after ${h2.join(" ; ")} [${cfgName}]: in progress ${inProg.join(",")}`, detail);
-              if (canon(schema) !== single[n].schema) rep.violation(`C16 the schema returned for a parser depends on the history`, `schemaWithContext(${n}) after ${hist.join(" ; ") || "(nothing)"} differs from the one in a fresh context [${cfgName}]`, detail);
+              if (single[n].threw && schema !== undefined) rep.violation(`C16 an unprintable type is printed after other calls`, `schemaWithContext(${n}) after ${hist.join(" ; ")} returned a schema [${cfgName}]`, detail);
+              if (!single[n].threw && canon(schema) !== single[n].schema) rep.violation(`C16 the schema returned for a parser depends on the history`, `schemaWithContext(${n}) after ${hist.join(" ; ") || "(nothing)"} differs from the one in a fresh context [${cfgName}]`, detail);
               for (const [k, v] of Object.entries(defs)) {
                 const cv = canon(v);
                 if (!freshDef.has(k)) rep.violation(`C16 a definition appears that no single call produces`, `definition ${k} after ${h2.join(" ; ")} [${cfgName}]`, detail);
@@ -171,7 +208,7 @@ export async function run() {
               // every name any of the called parsers needs is present
               for (const m of new Set(h2)) for (const k of Object.keys(single[m].defs)) if (!(k in defs)) rep.violation(`C16 a definition is missing from the export`, `definition ${k} (needed by ${m}) is missing after ${h2.join(" ; ")} [${cfgName}]`, detail);
               // refs resolve
-              const root = rootOf(ctx, schema);
+              const root = rootOf(ctx, schema ?? {});
               const refs = [];
               collectRefs(root, refs);
               for (const ref of new Set(refs)) if (resolvePointer(root, ref) === undefined) rep.violation(`C16 a $ref does not resolve in the export`, `$ref ${ref} after ${h2.join(" ; ")} [${cfgName}] does not resolve`, { ...detail, ref });
